@@ -10,10 +10,10 @@ echo "### confirm $ID/$M at $(date -u +%FT%TZ)"
 git apply --check $OUT/patch.diff && echo "patch applies: yes" || { echo "patch applies: NO"; exit 1; }
 cp $SRC $DEST
 echo "--- demo WITHOUT patch"
-cargo test --offline -p ractor --test $T $EXTRA 2>&1 | grep -E "^test result|^test .*(ok|FAILED)$|error(\[|:)" | head -20
+cargo test --offline -p ${PKG:-ractor} --test $T $EXTRA 2>&1 | grep -E "^test result|^test .*(ok|FAILED)$|error(\[|:)" | head -20
 git apply $OUT/patch.diff
 echo "--- demo WITH patch"
-cargo test --offline -p ractor --test $T $EXTRA 2>&1 | grep -E "^test result|^test .*(ok|FAILED)$|error(\[|:)" | head -20
+cargo test --offline -p ${PKG:-ractor} --test $T $EXTRA 2>&1 | grep -E "^test result|^test .*(ok|FAILED)$|error(\[|:)" | head -20
 rm -f $DEST
 echo "--- existing suite WITH patch"
 cargo nextest run --workspace --no-fail-fast --tool-config-file pb:/w/lib/nextest.toml --profile pb --test-threads 8 --offline 2>&1 | grep -E "Summary|FAIL |error(\[|:)" | head -10
